@@ -41,6 +41,12 @@ class Validator():
 
     def validate(self, json):
         problems = []
+        if not isinstance(json, dict) or not json:
+            # validate_node silently ignores anything that isn't a non-empty
+            # object, which is right for nested values but not for the root.
+            value = '"' + json + '"' if isinstance(json, str) else json
+            problems.append(f'{self.parser.root} is {value} but should be a non-empty Object')
+            return problems
         validator = NodeValidator(self.parser)
         validator.validate_node(json, self.parser.root, [self.parser.root], problems)
         return problems
